@@ -235,3 +235,28 @@ func init() {
 	})
 	_ = fmt.Sprint
 }
+
+// forNSPrograms enumerates the single-import M-ns programs (no pairs); used by C13 as resolver-heavy trees.
+func forNSPrograms(fn func(src string, v *version.Version)) {
+	for _, v := range []*version.Version{drive.V74, drive.V56} {
+		for _, nf := range nsm.NSForms {
+			for _, imp := range nsm.Imports {
+				for _, pos := range nsm.Positions {
+					names := nsm.Names
+					if pos.Kind == "" {
+						names = []string{""}
+					}
+					for _, nm := range names {
+						if pos.Kind != "" && !nsm.ValidFor(pos, nm) {
+							continue
+						}
+						p := &nsm.Prog{}
+						p.W("<?php ")
+						nf.Emit(p, []nsm.Import{imp}, func() { pos.Emit(p, nm) })
+						fn(p.B.String(), v)
+					}
+				}
+			}
+		}
+	}
+}
